@@ -236,7 +236,14 @@ def cases(draw, tiny=False):
         classes.append("track_" + kind)
     if "startdist" in stress:
         kind = draw(st.sampled_from(["txt", "txt", "h5size", "h5rank", "h5zero", "h5step", "unknown", "h5trunc", "h5garbage", "h5otherds"]))
+        # a start file always yields ONE bunch; the current list may still name several buckets (the program accepts
+        # that: one grid, several bucket numbers - round-5 seed C17e reads past the single profile there)
         o["BunchCurrent"] = [1e-3]
+        if draw(st.integers(0, 2)) == 0:
+            o["BunchCurrent"] = [1e-3 if draw(st.integers(0, 3)) else 0.0 for _ in range(draw(st.integers(2, 5)))]
+            if not any(o["BunchCurrent"]):
+                o["BunchCurrent"][0] = 1e-3
+            classes.append("startfile+buckets")
         if kind == "txt":
             files["s.txt"] = draw(token_text(2, maxlines=60))
             o["InitialDistFile"] = "s.txt"
